@@ -12,7 +12,7 @@
     (id -> rid); [st_runners] is every rerunner ever created, with its status Live / Failed / Stopped. *)
 From Coq Require Import List String Bool Arith.
 From Thunder Require Import Lib.Json DiffMerge.Model Server.Model Server.Spec Server.Proofs Server.ProofsLife
-     Server.ProofsLog Server.Witness Server.ProofsC17.
+     Server.ProofsLog Server.Witness Server.Release Server.ProofsRelease Server.ProofsC17.
 Import ListNotations.
 
 (** No leak, duplicate-id rule, map consistency.  In every reachable state: ids in the map are unique;
@@ -81,6 +81,70 @@ Print Assumptions logger_balanced_after_close.
 Theorem limit_holds : forall cfg s, c_fix_mutdup cfg = true -> reachable cfg s -> sub_count s <= c_max cfg.
 Proof. exact ProofsC17.limit_holds_l. Qed.
 Print Assumptions limit_holds.
+
+(** * A failing socket write (writeOrClose)
+
+    [LBreak] may occur anywhere in a history: from then on every write is lost and closes the socket.  All
+    theorems above quantify over histories with [LBreak] in them.  In addition: *)
+
+(** a failed write loses the envelope and closes the socket; *)
+Theorem failed_write_closes_socket : forall s e, st_wfail s = true ->
+  st_out (push_out s e) = st_out s /\ st_sockclosed (push_out s e) = true.
+Proof. exact ProofsC17.failed_write_closes_socket_l. Qed.
+Print Assumptions failed_write_closes_socket.
+
+(** once the socket is closed it stays closed (the next ReadJSON fails: the reader observes the close), *)
+Theorem socket_stays_closed : forall cfg s l s', step cfg s l = Some s' -> st_sockclosed s = true -> st_sockclosed s' = true.
+Proof. exact ProofsC17.socket_stays_closed_l. Qed.
+Print Assumptions socket_stays_closed.
+
+(** which is always possible between two messages - after which [all_stopped_after_close],
+    [logger_balanced_after_close] and [all_released_after_close] apply. *)
+Theorem close_always_possible : forall cfg s, st_closed s = false -> st_pend s = None ->
+  exists s', step cfg s LSocketClose = Some s' /\ st_closed s' = true.
+Proof. exact ProofsC17.close_always_possible_l. Qed.
+Print Assumptions close_always_possible.
+
+(** * Reactive resources are released (Server/Release.v)
+
+    [runR] runs the connection model together with the bookkeeping of the rerunner interface: computations
+    register resources, a successful run releases the previous computation, a failed one releases its own,
+    Stop() releases the published one; [rs_released] is the log of Cleanup calls. *)
+
+(** No resource gets two Cleanup calls; the log holds exactly the released resources. *)
+Theorem cleanup_at_most_once : forall cfg s rs, reachableR cfg (s, rs) ->
+  NoDup (rs_released rs) /\
+  forall e, In e (rs_entries rs) -> (In (re_res e) (rs_released rs) <-> re_phase e = RRel).
+Proof. exact ProofsC17.cleanup_at_most_once_l. Qed.
+Print Assumptions cleanup_at_most_once.
+
+(** Once a rerunner has ended, every resource registered by its computations has had its Cleanup call. *)
+Theorem released_when_stopped : forall cfg s rs e, reachableR cfg (s, rs) ->
+  In e (rs_entries rs) -> stopped_in s (re_rid e) = true ->
+  re_phase e = RRel /\ In (re_res e) (rs_released rs).
+Proof. exact ProofsC17.released_when_stopped_l. Qed.
+Print Assumptions released_when_stopped.
+
+(** After the connection closed, every resource ever registered has had exactly one Cleanup call. *)
+Theorem all_released_after_close : forall cfg s rs e, c_fix_mutdup cfg = true -> reachableR cfg (s, rs) ->
+  st_closed s = true -> In e (rs_entries rs) ->
+  re_phase e = RRel /\ In (re_res e) (rs_released rs) /\ NoDup (rs_released rs).
+Proof. exact ProofsC17.all_released_after_close_l. Qed.
+Print Assumptions all_released_after_close.
+
+(** F13 once more: with the original handleMutate a resource is still held after the connection closed. *)
+Theorem all_released_refuted :
+  exists s rs, runR (only_mutdup_missing 3) (init, rinit) h_f13_res = Some (s, rs) /\ st_closed s = true
+               /\ rs_entries rs = [mk_rentry 7 0 RCur] /\ rs_released rs = [].
+Proof. exact f13_release_witness. Qed.
+Print Assumptions all_released_refuted.
+
+(** Non-vacuity: superseded, failed, unsubscribed and socket-closed computations (the socket closed by a
+    failed write), six resources, six Cleanup calls. *)
+Example release_example :
+  exists s rs, runR (repaired 3) (init, rinit) h_release = Some (s, rs) /\ st_closed s = true
+               /\ rs_released rs = [6; 5; 3; 4; 2; 1] /\ List.length (st_out s) = 3 /\ st_sockclosed s = true.
+Proof. exact Witness.release_example. Qed.
 
 (** * The original code: each repair is needed *)
 
